@@ -56,12 +56,12 @@ def gen_dissect(chk):
             k += 1
             cs = combos if n <= full else [combos[k % 8]]
             for (p, b) in cs:
-                reqs.append("dissect 1 %d %d %d %s" % (p, b, k % 2, enc(list(t))))
-            if n <= 3: reqs.append("dissect 0 0 0 %d %s" % (k % 2, enc(list(t))))
+                reqs.append("dissect 1 %d %d %d %s" % (p, b, k % 4, enc(list(t))))
+            if n <= 3: reqs.append("dissect 0 0 0 %d %s" % (k % 4, enc(list(t))))
     for _ in range(2000 if quick else 100000):
         L = rng.choice([6, 8, 12, 30, 100])
         t = [rng.choice(SPLIT_ALPHA + [0x26, 0x3d, 0x0d, 0x0a, 0x20, rng.randint(1, 255)]) for _ in range(L)]
-        reqs.append("dissect 1 %d %d %d %s" % (rng.randint(0, 1), rng.randint(0, 3), rng.randint(0, 1), enc(t)))
+        reqs.append("dissect 1 %d %d %d %s" % (rng.randint(0, 1), rng.randint(0, 3), rng.randint(0, 3), enc(t)))
     return reqs
 
 # ---------------------------------------------------------------------------------- sizes near INT_MAX
@@ -293,7 +293,7 @@ def run(chk):
     for (li, stp, nb), t in sorted(txt.items()):
         if li < 0: continue
         for pts in ((1,) if stp else (0, 1)):
-            p3.append("dissect 1 %d 3 %d %s" % (pts, (li + pts) % 2, enc(t))); p3meta.append((li, stp, nb))
+            p3.append("dissect 1 %d 3 %d %s" % (pts, (li + pts) % 4, enc(t))); p3meta.append((li, stp, nb))
     p4 = gen_dissect(chk)
     # allocation failures (no model: rc must be the malloc code, nothing may stay allocated)
     p5 = []
